@@ -6,6 +6,7 @@ import Srctools.Proofs.C20Snd
 import Srctools.Proofs.C20SndTok
 import Srctools.Proofs.C20Vmt
 import Srctools.Proofs.C20VmtTok
+import Srctools.Proofs.C20Smd
 import Srctools.Gen.Kvser
 import Srctools.Props.C01
 import Srctools.Props.C02
@@ -491,6 +492,56 @@ example : parseVmtText Gen.Tok.tables (fun c => if c = 'P' then ['p'] else if c 
   C20_vmt _ C01.C01_gen_tables _ C20_gen_quote.1 _ _ C20_vmt_sample_ok.2 C20_vmt_sample_ok.1
 
 end Vmt
+
+/-! ## SMD: bone numbering and vertex lines -/
+
+namespace Smd
+open C20.Smd
+
+/-- OBLIGATION on the current source: the format strings of `Mesh.export` (vertex line with its
+tab / blank separators, the separate ` %i` link count and ` %i %.6f` links), the ordered work list
+of the bone numbering, and the conditions of writer and triangle reader. -/
+theorem C20_gen_smd :
+    Gen.C20.smdExportFmts = ["version 1\nnodes\n", "%i \"%s\" %i\n", "end\nskeleton\n", "time %i\n",
+      "%i %.6f %.6f %.6f  %.6f %.6f %.6f\n", "end\n", "triangles\n", "\n",
+      "%i\t%.6f %.6f %.6f\t%.6f %.6f %.6f\t%.6f %.6f", " %i", " %i %.6f", "\n", "end\n"] ∧
+    Gen.C20.smdTodo = ["dict.fromkeys(self.bones.values())"] ∧
+    Gen.C20.smdExportConds = ["self.triangles", "notchanged", "notbone.parentorbone.parentinbone_indexes",
+      "bone.parentisNone", "len(vert.links)>1"] ∧
+    Gen.C20.smdTriConds = ["line==b'end'", "links_raw", "link_count*2+1!=len(links_raw)", "notlinks"] := by decide
+
+/-- **One vertex line** (record-type theorem): the line `Mesh.export` writes for a vertex — bone
+index, position, normal, UV, and for two or more bone links their count and (index, weight)
+pairs — is split by `bytes.split()` into exactly its fields and read back by `_parse_smd_tri` as
+`normVertex`: unchanged, except that a single link comes back with weight 1.0. Numbers are the
+`%.6f` / `%i` texts (non-empty, blank-free); fewer than ten links. -/
+theorem C20_smd_partial (known : Str → Bool) (vx : Vertex) (h : VxOK known vx) :
+    B64.splitWs (vertexLine vx) = vertexFields vx ∧
+    parseVertexLine known (vertexLine vx) = some (normVertex vx) :=
+  ⟨split_vertexLine vx h, parse_vertexLine known vx h⟩
+
+/-- **Bone numbering is reproducible**: for a skeleton with distinct names listed parents-first
+(what `parse_smd` returns: bones in index order), `Mesh.export` gives bone *i* the index *i* — the
+second generation renumbers nothing. (The writer iterates an insertion-ordered dict; with the
+former `set` the order depended on hashing.) -/
+theorem C20_smd_bones (bs : List Bone) (hn : (bs.map (·.name)).Nodup) (ht : topoFrom [] bs) :
+    numberBones bs = some (bs.map (·.name)) := numberBones_ordered bs hn ht
+
+/-! non-vacuity; children listed first need several passes; a parent loop is an error -/
+def sampleVertex : Vertex :=
+  { pos := ("1.000000".toList, "-0.500000".toList, "0.000000".toList),
+    norm := ("0.000000".toList, "0.000000".toList, "1.000000".toList), u := "0.250000".toList, v := "0.750000".toList,
+    links := [("0".toList, "0.500000".toList), ("2".toList, "0.250000".toList), ("1".toList, "0.250000".toList)] }
+
+theorem C20_smd_sample_ok : VxOK (fun b => ["0".toList, "1".toList, "2".toList].contains b) sampleVertex := by
+  refine ⟨by decide +kernel, by decide +kernel, by decide +kernel, by decide +kernel, by decide +kernel⟩
+
+example : numberBones [⟨"hand".toList, some "arm".toList⟩, ⟨"arm".toList, some "root".toList⟩, ⟨"root".toList, none⟩]
+      = some ["root".toList, "arm".toList, "hand".toList] ∧
+    numberBones [⟨"a".toList, some "b".toList⟩, ⟨"b".toList, some "a".toList⟩] = none ∧
+    topoFrom [] [⟨"root".toList, none⟩, ⟨"arm".toList, some "root".toList⟩] := by decide +kernel
+
+end Smd
 
 /-! ## quantised fields -/
 
